@@ -14,7 +14,7 @@ from ..templates import (TemplateHooks, generic_instances, make_hole, to_term,
                          show)
 from ..galg import (GraphHooks, evaluate_set, all_graphs, all_subsets,
                     NotEvaluable, GraphError, CG)
-from ..report import Finding, RuleResult, floor, Attempts
+from ..report import Finding, RuleResult, floor, Attempts, adopt
 from . import c05
 
 PROP = 'C01'
@@ -532,9 +532,14 @@ def rule_ctl5(prog, entry, labeller, memo_ok, why):
     return r
 
 
-def run(prog, tier, seed):
-    T = Attempts()
-    entry, labeller, memo_ok, why = discover_labeller(prog)
+def own_rules(prog, tier, T):
+    """the rules about the CTL labeller itself (also run by the checks of
+    the properties that rely on the CTL checker)"""
+    d = T(discover_labeller, prog, _n=4)
+    entry, labeller, memo_ok, why = d
+    if labeller is None:
+        T.skipped('R-CTL-1, R-CTL-3, R-CTL-5')
+        return T.results(T(rule_ctl2, prog, tier))
     r1, table = T(rule_ctl1, prog, labeller, _n=2)
     r2 = T(rule_ctl2, prog, tier)
     if table is not None:
@@ -548,6 +553,12 @@ def run(prog, tier, seed):
     if r5b is not None:
         r5b.title = ('memo key (printed form in CTL notation) is injective: '
                      'two CTL trees never share a memo entry')
+    return T.results(r1, r2, r3, r5, r5b)
+
+
+def run(prog, tier, seed):
+    T = Attempts()
+    own = own_rules(prog, tier, T)
     expl = ('The CTL labeller is discovered from CTL.modelcheck and '
             'interpreted abstractly per formula shape: (1) every restricted '
             'shape is handled directly and every other shape is rewritten '
@@ -567,4 +578,15 @@ def run(prog, tier, seed):
                    'memo key injectivity: printer grammar of the CTL notation '
                    'is LR(1) over canonical tokens (atoms identifier-style, '
                    'not reserved words)']
-    return T.results(r1, r2, r3, r5, r5b), expl, assumptions, T.extra()
+    # components the exactness of the CTL answers relies on (each rule is a
+    # necessary condition here too: EG uses compute_SCCs, EU/EG the
+    # subgraph / reversed graph / reachability of DiGraph, the rewriting of
+    # leaves uses clone)
+    from . import c11, c12, c13
+    adj = T(c13.adjacency_field, prog)
+    dep = adopt(T.results(
+        T(c12.rule_scc, prog), T(c12.rule_scc6, prog),
+        T(c13.rule_g12, prog, adj, _n=2) if adj else None,
+        T(c13.rule_g3, prog, adj) if adj else None,
+        T(c11.rule_eq2, prog)), PROP, 'relied on by the CTL labeller')
+    return own + dep, expl, assumptions, T.extra()
